@@ -18,7 +18,7 @@ nontrivial = c01.nontrivial
 def scenarios(rng, n, tier):
     for _ in range(n):
         opts = {"calls": [0, 0, 0, 5], "p_skip": 0.0, "p_nodelay": 0.25, "p_stop": 0.1,
-                "p_limit": 0.2, "max_jobs": 3, "p_force": 0.15, "p_start": 0.6, "max_polls": 8}
+                "p_limit": 0.2, "max_jobs": 3, "p_maxexec": 0.15, "p_force": 0.15, "p_start": 0.6, "max_polls": 8}
         yield scen.gen_life(rng, opts)
 
 
